@@ -436,6 +436,39 @@ def req_guard(ctx, rule="R-REQ-GUARD", rule_fan="R-REQ-FANOUT"):
                 ctx.violated(rule_fan, f, inst, bad, cbs[0][1].node)
             else:
                 ctx.holds(rule_fan, inst)
+    # converse: an operational CA that owns the destination does react - no path that neither answers nor reaches the callback
+    # fan-out is compatible with the guard (requesters hold an address 0..253 or use the null address 254)
+    if n >= 2:
+        inst = "_process_request: every operational CA owning the destination reacts (requester 0..254)"
+        req_alias = {t.id for x in ast.walk(f.node) if isinstance(x, ast.Assign) and any(
+            isinstance(y, ast.Attribute) and y.attr == "_subscribers_request" for y in ast.walk(x.value)) for t in x.targets if isinstance(t, ast.Name)}
+        badp = None
+        for r in runs(ctx, f, unroll=2):
+            if r.term in ("raise", "exc"):
+                continue
+            reacts = any(e.kind == "call" and e.value[1] == ("attr", SELF, "_send_address_claimed") for _, e in r.effects()) or any(
+                rec.ev.kind == "for" and isinstance(rec.ev.node, ast.For) and any(
+                    (isinstance(x, ast.Attribute) and x.attr == "_subscribers_request") or (isinstance(x, ast.Name) and x.id in req_alias)
+                    for x in ast.walk(rec.ev.node.iter)) for rec in r.recs) or any(
+                e.kind == "call" and e.value[1][0] == "iter" and e.value[1][1] == field("_subscribers_request") for _, e in r.effects())
+            if reacts:
+                continue
+            F = mk_bool("and", [want, G.conj(iguards(ctx, f, r)), mk_cmp("<", sa, ("c", 255))])
+            try:
+                sat = G.satisfiable(F)
+            except AnalysisError as ex:
+                ctx.unknown(rule, "converse of the request guard: %s" % ex)
+                badp = "?"
+                break
+            if sat:
+                badp = r
+                break
+        if badp is None:
+            ctx.holds(rule, inst)
+        elif badp != "?":
+            gl = [pretty(g if p else mk_not(g))[:70] for g, p in iguards(ctx, f, badp)]
+            ctx.violated(rule, f, inst, "a path leaves the handler without answer or callback although the CA is operational and owns the destination: "
+                         "it is taken when %s" % " and ".join(gl[:4]), f.node)
     if n < 2:
         ctx.unknown(rule, "reaction paths not found in %s (%d)" % (f.qual, n))
 
@@ -619,7 +652,42 @@ def subscriber_rule(ctx, rule="R-SUBSCRIBER-RULE"):
                 ok = True
             else:
                 bad = True
-    if not shape:
+    # an acceptance predicate answered from a separate index of the registry: the index has to follow every change of the registry
+    import ast as _ast
+    MUT = {"append", "remove", "add", "discard", "pop", "clear", "extend", "insert", "update", "difference_update", "intersection_update",
+           "setdefault", "popitem", "subtract"}
+
+    def mutated(fn):
+        out = set()
+        for n in _ast.walk(fn.node):
+            t = None
+            if isinstance(n, _ast.Attribute) and isinstance(n.ctx, (_ast.Store, _ast.Del)):
+                t = n
+            elif isinstance(n, _ast.Subscript) and isinstance(n.ctx, (_ast.Store, _ast.Del)):
+                t = n.value
+            elif isinstance(n, _ast.Call) and isinstance(n.func, _ast.Attribute) and n.func.attr in MUT:
+                t = n.func.value
+            while isinstance(t, _ast.Subscript):
+                t = t.value
+            if isinstance(t, _ast.Attribute) and isinstance(t.value, _ast.Name) and t.value.id == "self":
+                out.add(t.attr)
+        return out
+    cls = P.cls("ElectronicControlUnit")
+    idx = {n.attr for n in _ast.walk(a.node) if isinstance(n, _ast.Attribute) and isinstance(n.value, _ast.Name) and n.value.id == "self"
+           and isinstance(n.ctx, _ast.Load)} - {"_subscribers"} - set(cls.methods)
+    for F in sorted(idx):
+        for mn, m in sorted(cls.methods.items()):
+            if mn == "__init__":
+                continue
+            mu = mutated(m)
+            if "_subscribers" in mu and F not in mu:
+                ctx.violated(rule, m, "_is_message_acceptable index %s" % F, "_is_message_acceptable answers from self.%s, but %s changes the listener "
+                             "registry without updating it: the acceptance of a destination no longer follows the registered listeners (an address "
+                             "stays accepted after its listener is gone, or is not accepted although one is registered)" % (F, mn), m.node)
+                bad = True
+    if bad and not shape:
+        pass
+    elif not shape:
         ctx.unknown(rule, "_is_message_acceptable: result construct not recognised")
     elif ok and not bad:
         ctx.holds(rule, "_is_message_acceptable <=> some ECU-level listener is bound to exactly that address")
@@ -772,6 +840,8 @@ def ca_loops(ctx, cls, rule="R-CA-LOOPS"):
     all_handlers = handlers | {"_process_tp_cm", "_process_tp_dt", "_process_multi_pg", "__notify_subscribers"}
     seen = {}
     bad = {}
+    stale = []
+    n_spec = 0
     for r in runs(ctx, f, unroll=2):
         fors = [(j, rec) for j, rec in enumerate(r.recs) if rec.ev.kind == "for"]
         # for-nodes over self._cas entered on this run
@@ -783,7 +853,21 @@ def ca_loops(ctx, cls, rule="R-CA-LOOPS"):
             if any(isinstance(x, ast.Attribute) and x.attr == "_cas" and isinstance(x.value, ast.Name) and x.value.id == "self" for x in ast.walk(it)):
                 over.setdefault(id(rec.ev.node), (rec.ev.node, []))[1].append(j)
         if not over:
+            # a rejecting run for a destination-specific frame that no ECU-level listener takes: the rejection has to come from asking the
+            # CAs now (their claim state changes at run time), not from anything remembered
+            gl = lits(r.guards())
+            specific = (mk_cmp("==", dest, GLOBAL), False) in gl
+            ecu_no = any((not p) and g[0] == "call" and "is_message_acceptable" in (mname(g) or "") for g, p in gl)
+            anyh = [e for _, e in r.effects() if e.kind == "call" and mname(e.value) in all_handlers]
+            asked = any(rec.ev.kind == "for" and any(isinstance(x, ast.Attribute) and x.attr == "_cas" for x in ast.walk(rec.ev.node.iter)) for _, rec in fors) \
+                or any(contains(g, field("_cas")) for g, _ in r.guards())
+            if specific and ecu_no and not anyh and r.term == "return" and not asked:
+                why = [pretty(g if p else mk_not(g))[:60] for g, p in r.guards()][-1:]
+                stale.append((r, why))
+            if specific and ecu_no:
+                n_spec += 1
             continue
+        n_spec += 1
         exhausted = {id(rec.ev.node) for j, rec in fors if rec.ev.pol == "exhaust"}
         calls = [(i, e) for i, e in r.effects() if e.kind == "call" and mname(e.value) in all_handlers]
         for nid, (node, its) in over.items():
@@ -803,6 +887,13 @@ def ca_loops(ctx, cls, rule="R-CA-LOOPS"):
                 if nid not in exhausted:
                     bad.setdefault(key, (node, "the frame is rejected although not every CA was asked: the filter loop is left (break) before a "
                                          "later CA could accept the destination"))
+    inst = "%s.notify: a destination-specific frame is rejected only after asking the CAs" % cls
+    if stale:
+        ctx.violated(rule, f, inst, "a frame to a specific destination is dropped without asking any CA whether it holds that address now (the run "
+                     "returns when %s): a CA that has become operational at the address since the decision was remembered never sees its requests" % (
+                         " and ".join(stale[0][1]) or "?"), f.node)
+    elif n_spec:
+        ctx.holds(rule, inst)
     for key, node in sorted(seen.items()):
         inst = "%s.notify: %s consults every CA" % (cls, key[1])
         if key in bad:
@@ -935,3 +1026,94 @@ def claim_order(ctx, rule="R-CLAIM-ORDER"):
             ctx.holds(rule, inst)
     if n < 2:
         ctx.unknown(rule, "claiming paths from the state NONE not found (%d)" % n)
+
+
+def claim_track(ctx, rule="R-CLAIM-TRACK"):
+    """whenever a claim for an address X (not the null address) is handed to the bus, X is - at that moment - the address the CA holds or
+    the one it has recorded as announced.  A claim for an address it is not yet tracking leaves a window in which the defending claim of
+    the address's holder (processed before the sending call returns) matches neither field and is ignored."""
+    P = ctx.prog
+    n = 0
+    for fn in ("_process_claim_async", "_process_addressclaim", "_process_request"):
+        f = P.func(CA, fn)
+        for r in runs(ctx, f):
+            cur = {ADDR_F: ADDR_F, ANN_F: ANN_F}
+            for i, e in r.effects():
+                if e.kind == "store" and e.target in cur:
+                    cur[e.target] = e.value
+                elif e.kind == "aug" and e.target in cur:
+                    cur[e.target] = mk_bin(e.extra, cur[e.target], e.value)
+                elif e.kind == "call" and e.value[1] == ("attr", SELF, "_send_address_claimed") and len(e.value[2]) == 1:
+                    a = e.value[2][0]
+                    if a == NULL:
+                        continue
+                    n += 1
+                    inst = "%s, claim for %s: the claimed address is the held or the announced one when the frame is sent" % (fn, pretty(a)[:60])
+                    from .common import ife_alts
+                    if all(x in (cur[ADDR_F], cur[ANN_F]) for x in ife_alts(a)):
+                        ctx.holds(rule, inst)
+                    else:
+                        ctx.violated(rule, f, inst, "the claim names %s while the CA records %s as held and %s as announced: the answer of the "
+                                     "address's holder, processed before the sending call returns, matches neither and is ignored - both end up "
+                                     "operational at that address" % (pretty(a)[:50], pretty(cur[ADDR_F])[:40], pretty(cur[ANN_F])[:40]), e.node)
+    if n < 5:
+        ctx.unknown(rule, "claim sends not found (%d)" % n)
+
+
+def normal_announced(ctx, rule="R-NORMAL-ANNOUNCED"):
+    """the losing branch of the claim handler derives the next address to claim from the recorded announced address.  That is only the
+    successor of the address just lost if, whenever the CA becomes operational, the announced address equals the address it holds."""
+    import ast
+    P = ctx.prog
+    st = ca_consts(ctx)
+    h = P.func(CA, "_process_addressclaim")
+    derives = False
+    for r in runs(ctx, h):
+        for i, e in r.effects():
+            if e.kind == "aug" and e.target == ANN_F:
+                derives = True
+            if e.kind == "store" and e.target == ANN_F and contains(e.value, ANN_F):
+                derives = True
+            if e.kind == "call" and e.value[1] == ("attr", SELF, "_send_address_claimed") and e.value[2] and e.value[2][0] != ANN_F and contains(e.value[2][0], ANN_F):
+                derives = True
+    if not derives:
+        ctx.holds(rule, "the claim handler does not derive the next address from the announced address")
+        return
+    n = 0
+    cls = P.cls(CA)
+    from .common import is_helper, ife_alts
+    for mn, m in sorted(cls.methods.items()):
+        if is_helper(m) or m.kind != "method":
+            continue       # helpers are inlined into the anchor functions that call them
+        for r in runs(ctx, m):
+            if r.term in ("raise", "exc"):
+                continue
+            cur = {ADDR_F: ADDR_F, ANN_F: ANN_F}
+            became = under = None
+            for i, e in r.effects():
+                if e.kind == "store" and e.target in cur:
+                    cur[e.target] = e.value
+                elif e.kind == "aug" and e.target in cur:
+                    cur[e.target] = mk_bin(e.extra, cur[e.target], e.value)
+                elif e.kind == "store" and e.target == STATE_F and e.value == ("c", st["NORMAL"]):
+                    became, under = e, None
+                elif e.kind == "store" and e.target == STATE_F and e.value[0] == "ife" and ("c", st["NORMAL"]) in (e.value[2], e.value[3]):
+                    # NORMAL if <c> else <other>: the clause concerns the case <c>
+                    became = e
+                    under = e.value[1] if e.value[2] == ("c", st["NORMAL"]) else mk_not(e.value[1])
+            if became is None:
+                continue
+            if under is not None:
+                from .common import resolve_under
+                cur = {k: resolve_under(v, under) for k, v in cur.items()}
+            n += 1
+            inst = "%s: becomes operational with announced address == held address" % mn
+            if cur[ADDR_F] == cur[ANN_F]:
+                ctx.holds(rule, inst)
+            else:
+                ctx.violated(rule, m, inst, "the CA becomes operational holding %s while its announced address is %s; when it later loses the "
+                             "address, the claim handler claims the successor of the ANNOUNCED address (%s + 1), not of the address it held - "
+                             "e.g. 254 + 1 = 255, the global address, which it then uses as its source address" % (
+                                 pretty(cur[ADDR_F])[:50], pretty(cur[ANN_F])[:50], pretty(cur[ANN_F])[:50]), became.node)
+    if n < 3:
+        ctx.unknown(rule, "paths entering NORMAL not found (%d)" % n)
